@@ -1233,12 +1233,15 @@ func (s *sched) genCommand() gen.Cmd {
 
 // commitNext commits a generated write: mostly from the shared generator, sometimes a focus write
 func (s *sched) commitNext() {
-	if s.rng.Chance(22) {
+	if s.rng.Chance(27) {
 		var class, desc string
 		var data []byte
-		if s.rng.Chance(40) {
+		switch k := s.rng.Intn(100); {
+		case k < 32:
 			class, desc, data = s.focusMixed(-1)
-		} else {
+		case k < 60:
+			class, desc, data = s.focusNodeWide(-1, s.rng.Intn(2))
+		default:
 			class, desc, data = s.focusCommand()
 		}
 		s.commit(class, desc, data, nil)
@@ -1393,6 +1396,158 @@ func (s *sched) focusMixed(kind int) (class, desc string, data []byte) {
 		e := &structs.TerminatingGatewayConfigEntry{Kind: structs.TerminatingGateway, Name: "tgw2"}
 		_ = e.Normalize()
 		return mk("focus:mixed:gateway-config-delete", structs.ConfigEntryRequestType, &structs.ConfigEntryRequest{Datacenter: "dc1", Op: structs.ConfigEntryDelete, Entry: e})
+	}
+}
+
+// ---- the node-wide event path: a node update or a node-level check change rebuilds, at one index, the
+// health events of EVERY instance on the node, each with the node's checks plus its OWN service checks.
+
+var nodeWideServices = []struct{ id, name string }{{"web1", "web"}, {"web-n", "web"}, {"db", "db"}, {"api", "api"}}
+
+// nodeWideCensus: node-level checks on the node and the distinct services with service-level checks
+func (s *sched) nodeWideCensus(node string) (nodeChecks int, svcWithChecks map[string]bool) {
+	svcWithChecks = map[string]bool{}
+	_, cs, _ := s.r.fsm.State().NodeChecks(nil, node, nil, "")
+	for _, c := range cs {
+		if c.ServiceID == "" {
+			nodeChecks++
+		} else {
+			svcWithChecks[c.ServiceName] = true
+		}
+	}
+	return
+}
+
+// noteNodeWide counts a node-level write by what the node carries and who is listening
+func (s *sched) noteNodeWide(node string) {
+	nc, svcs := s.nodeWideCensus(node)
+	live := map[string]bool{}
+	for _, sb := range s.subs {
+		if sb.subj.Class == "health" && !sb.tainted && sb.delivered > 0 {
+			_, n, _ := strings.Cut(sb.subj.Name, ":")
+			if svcs[n] {
+				live[n] = true
+			}
+		}
+	}
+	s.run.Count("node-wide-writes")
+	if nc >= 3 && len(svcs) >= 2 && len(live) >= 2 {
+		s.run.Count("node-wide-events-on-node-with-3+-node-checks-and-2+-services-with-service-checks")
+		s.run.Distinct("node-wide:node-check-count", fmt.Sprint(nc))
+		switch nc {
+		case 3, 5, 6, 7, 9:
+			s.run.Count("node-wide-events:node-check-count-not-a-power-of-two")
+		}
+		s.kinds["node-wide"] = true
+	}
+}
+
+// focusNodeWide: kind < 0: drawn. 0-2 node-level check set (status/output change or a new one), 3 node-level
+// check removed, 4 node meta, 5 node address, 6-8 service-level check set (own ID, name, output per service),
+// 9 service-level check removed, 10 (re)register the instances.
+func (s *sched) focusNodeWide(kind, node int) (class, desc string, data []byte) {
+	r := s.rng
+	n := focusNodes[node]
+	if kind < 0 {
+		kind = r.Intn(11)
+	}
+	mk := func(class string, t structs.MessageType, req any) (string, string, []byte) {
+		return class, class + " " + core.JSON(req), fsmEnc(t, req)
+	}
+	status := func() string { return core.Pick(r, []string{api.HealthPassing, api.HealthWarning, api.HealthCritical}) }
+	s.aclSeq++
+	switch kind {
+	case 0, 1, 2:
+		s.noteNodeWide(n.name)
+		i := r.Intn(9)
+		c := &structs.HealthCheck{Node: n.name, CheckID: types.CheckID(fmt.Sprintf("nc%d", i)), Name: fmt.Sprintf("node check %d", i), Status: status(), Output: fmt.Sprintf("node-%d out %d", i, s.aclSeq)}
+		return mk("focus:node-wide:node-check", structs.RegisterRequestType, &structs.RegisterRequest{Datacenter: "dc1", Node: n.name, Address: n.addr, ID: n.id, SkipNodeUpdate: true, Check: c})
+	case 3:
+		s.noteNodeWide(n.name)
+		return mk("focus:node-wide:node-check-removed", structs.DeregisterRequestType, &structs.DeregisterRequest{Datacenter: "dc1", Node: n.name, CheckID: types.CheckID(fmt.Sprintf("nc%d", r.Intn(9)))})
+	case 4:
+		s.noteNodeWide(n.name)
+		return mk("focus:node-wide:node-meta", structs.RegisterRequestType, &structs.RegisterRequest{Datacenter: "dc1", Node: n.name, Address: n.addr, ID: n.id, NodeMeta: map[string]string{"rev": fmt.Sprint(s.aclSeq)}})
+	case 5:
+		s.noteNodeWide(n.name)
+		return mk("focus:node-wide:node-address", structs.RegisterRequestType, &structs.RegisterRequest{Datacenter: "dc1", Node: n.name, Address: core.Pick(r, []string{n.addr, "10.0.7." + fmt.Sprint(1+node)}), ID: n.id})
+	case 6, 7, 8:
+		sv := core.Pick(r, nodeWideServices)
+		j := r.Intn(3)
+		c := &structs.HealthCheck{Node: n.name, CheckID: types.CheckID(fmt.Sprintf("%s:c%d", sv.id, j)), Name: fmt.Sprintf("%s check %d", sv.id, j), Status: status(),
+			Output: fmt.Sprintf("%s-%d out %d", sv.id, j, s.aclSeq), ServiceID: sv.id}
+		return mk("focus:node-wide:service-check", structs.RegisterRequestType, &structs.RegisterRequest{Datacenter: "dc1", Node: n.name, Address: n.addr, ID: n.id, SkipNodeUpdate: true, Check: c})
+	case 9:
+		sv := core.Pick(r, nodeWideServices)
+		return mk("focus:node-wide:service-check-removed", structs.DeregisterRequestType, &structs.DeregisterRequest{Datacenter: "dc1", Node: n.name, CheckID: types.CheckID(fmt.Sprintf("%s:c%d", sv.id, r.Intn(3)))})
+	default:
+		sv := core.Pick(r, nodeWideServices)
+		ns := &structs.NodeService{ID: sv.id, Service: sv.name, Port: 8200 + r.Intn(2)}
+		if sv.id == "web-n" {
+			ns.Connect.Native = true
+		}
+		return mk("focus:node-wide:instance", structs.RegisterRequestType, &structs.RegisterRequest{Datacenter: "dc1", Node: n.name, Address: n.addr, ID: n.id, SkipNodeUpdate: true, Service: ns})
+	}
+}
+
+// scenarioNodeWide: node n1 carries k1 node-level checks (k1 in 3,5,6,7,9), the instances web1, web-n (connect
+// native), db and api, each with 1-3 service-level checks of its own; n2 the same with another k; clients
+// listen on health web, health db and connect web; then node-level and service-level writes alternate.
+func (s *sched) scenarioNodeWide() {
+	r := s.rng
+	ks := []int{3, 5, 6, 7, 9}
+	k := [2]int{core.Pick(r, ks), core.Pick(r, ks)}
+	s.logf("scenario: node-wide events: n1 with %d and n2 with %d node-level checks, instances web1 web-n db api with their own service checks", k[0], k[1])
+	put := func(class string, req any, t structs.MessageType) {
+		s.commit(class, class+" "+core.JSON(req), fsmEnc(t, req), nil)
+	}
+	for node := 0; node < 2; node++ {
+		n := focusNodes[node]
+		for _, sv := range nodeWideServices {
+			ns := &structs.NodeService{ID: sv.id, Service: sv.name, Port: 8200}
+			if sv.id == "web-n" {
+				ns.Connect.Native = true
+			}
+			put("focus:node-wide:instance", &structs.RegisterRequest{Datacenter: "dc1", Node: n.name, Address: n.addr, ID: n.id, Service: ns}, structs.RegisterRequestType)
+			for j := 0; j < 1+r.Intn(3); j++ {
+				c := &structs.HealthCheck{Node: n.name, CheckID: types.CheckID(fmt.Sprintf("%s:c%d", sv.id, j)), Name: fmt.Sprintf("%s check %d", sv.id, j), Status: api.HealthPassing,
+					Output: fmt.Sprintf("%s-%d initial", sv.id, j), ServiceID: sv.id}
+				put("focus:node-wide:service-check", &structs.RegisterRequest{Datacenter: "dc1", Node: n.name, Address: n.addr, ID: n.id, SkipNodeUpdate: true, Check: c}, structs.RegisterRequestType)
+			}
+		}
+		for i := 0; i < k[node]; i++ {
+			c := &structs.HealthCheck{Node: n.name, CheckID: types.CheckID(fmt.Sprintf("nc%d", i)), Name: fmt.Sprintf("node check %d", i), Status: api.HealthPassing, Output: fmt.Sprintf("node-%d initial", i)}
+			put("focus:node-wide:node-check", &structs.RegisterRequest{Datacenter: "dc1", Node: n.name, Address: n.addr, ID: n.id, SkipNodeUpdate: true, Check: c}, structs.RegisterRequestType)
+		}
+	}
+	s.drainAll()
+	for _, i := range []int{0, 3, 1} { // health web, health db, connect web
+		s.newClient(s.subjs[i], core.Pick(r, []string{"", secretA}), r.Chance(25))
+	}
+	if r.Bool() {
+		s.newClient(s.subjs[0], "", true)
+	}
+	// node-level writes on n1, then service-level ones, then the same on n2; existing checks are hit on purpose
+	for node := 0; node < 2; node++ {
+		n := focusNodes[node]
+		for _, kind := range []int{0, 4, 0, 3, 0, 5, 6, 7, 0} {
+			var class, desc string
+			var data []byte
+			if kind == 0 {
+				// change the status/output of one of the node's EXISTING node-level checks
+				i := r.Intn(k[node])
+				s.noteNodeWide(n.name)
+				c := &structs.HealthCheck{Node: n.name, CheckID: types.CheckID(fmt.Sprintf("nc%d", i)), Name: fmt.Sprintf("node check %d", i), Status: core.Pick(r, []string{api.HealthWarning, api.HealthCritical, api.HealthPassing}), Output: fmt.Sprintf("node-%d flap %d", i, len(s.steps))}
+				req := &structs.RegisterRequest{Datacenter: "dc1", Node: n.name, Address: n.addr, ID: n.id, SkipNodeUpdate: true, Check: c}
+				class, desc, data = "focus:node-wide:node-check", "focus:node-wide:node-check "+core.JSON(req), fsmEnc(structs.RegisterRequestType, req)
+			} else {
+				class, desc, data = s.focusNodeWide(kind, node)
+			}
+			s.commit(class, desc, data, nil)
+			if r.Chance(60) {
+				s.drainOne()
+			}
+		}
 	}
 }
 
@@ -1553,6 +1708,9 @@ func runSchedule(run *core.Run, rng *core.Rand, name string, ordinal, nsteps int
 
 	// every 6th schedule opens with the mixed-case-service scenario, every 6th with the check-relink one, every 6th with the partial-visibility one
 	switch ordinal % 6 {
+	case 2:
+		s.scenarioNodeWide()
+		run.Count("schedules:scenario-node-wide-events")
 	case 3:
 		s.scenarioMixedCase()
 		run.Count("schedules:scenario-mixed-case-service")
@@ -1756,6 +1914,9 @@ func TestZZVerifC11(t *testing.T) {
 	run.Floor("health-deliveries-for-mixed-case-subject", nsched/3)
 	run.Floor("proxy-or-gateway-changes-for-mixed-case-destination-with-live-connect-client", nsched/3)
 	run.FloorDistinct("mixed-case-subject-spelling", 4)
+	run.Floor("node-wide-events-on-node-with-3+-node-checks-and-2+-services-with-service-checks", nsched/2)
+	run.Floor("node-wide-events:node-check-count-not-a-power-of-two", nsched/3)
+	run.FloorDistinct("node-wide:node-check-count", 5)
 	run.FloorDistinct("subject", 10)
 	if run.Finish() == 1 {
 		t.Fail()
